@@ -100,6 +100,7 @@ fn main() {
         }
     };
 
+    let mut_methods: std::collections::HashSet<String> = ctx.fns.iter().filter(|f| f.has_self && f.mut_params.contains(&0)).map(|f| f.name.clone()).collect();
     // phase A: translate every function on its own
     let mut outs: Vec<Out> = Vec::new();
     for f in ctx.fns.iter() {
@@ -121,7 +122,19 @@ fn main() {
             outs.push(Out { def: None, deps: BTreeSet::new(), error: Some(format!("untranslatable: Coq rejected the generated definition: {}", r)), binders: vec![] });
             continue;
         }
-        let t = tr::Tr { ctx: &ctx, f, file: f.file.clone(), deps: RefCell::new(BTreeSet::new()), counter: RefCell::new(0) };
+        let t = tr::Tr {
+            ctx: &ctx,
+            f,
+            file: f.file.clone(),
+            deps: RefCell::new(BTreeSet::new()),
+            counter: RefCell::new(0),
+            allow_mut: std::cell::Cell::new(false),
+            mut_places: RefCell::new(None),
+            cur_call: RefCell::new(None),
+            mut_methods: &mut_methods,
+            loops: RefCell::new(vec![]),
+            ambient: RefCell::new(vec![]),
+        };
         match t.function() {
             Ok((binders, ret, body)) => {
                 let bs: String = binders.iter().map(|(n, ty)| format!(" ({} : {})", n, ty)).collect();
@@ -184,6 +197,7 @@ fn main() {
     v.push_str("From Coq Require Import ZArith QArith List Bool Floats.\n");
     v.push_str(&format!("From KV Require Import {}.\n", imports));
     v.push_str("Import ListNotations.\n\nSet Implicit Arguments.\n\nSection Gen.\nContext {T : Type} `{Scalar T}.\nLocal Open Scope S_scope.\n\n");
+    v.push_str("(* Rust standard-library operations on slices used by the translated code *)\nFixpoint tr_set (l : list T) (i : nat) (x : T) : list T :=\n  match l, i with\n  | [], _ => []\n  | _ :: r, O => x :: r\n  | a :: r, S i' => a :: tr_set r i' x\n  end.\nDefinition tr_swap (l : list T) (i j : nat) : list T := tr_set (tr_set l i (nth j l f0)) j (nth i l f0).\nFixpoint tr_find_map {A B : Type} (f : A -> option B) (l : list A) : option B :=\n  match l with\n  | [] => None\n  | x :: r => match f x with Some y => Some y | None => tr_find_map f r end\n  end.\n\n");
     let mut def_lines: Vec<(usize, usize, usize)> = Vec::new(); // fn index, first line, last line
     for &i in &order {
         if let Some(d) = &outs[i].def {
@@ -215,7 +229,7 @@ fn main() {
     }
     ltac.push_str("  | x : (_ * _)%type |- _ => destruct x\n  | x : option _ |- _ => destruct x\n  end.\n");
     ltac.push_str("Ltac tr_ifs := repeat match goal with |- context [if ?c then _ else _] => destruct c end.\n");
-    ltac.push_str("Ltac tr_solve := intros; first [ reflexivity | tr_destruct; reflexivity | tr_destruct; cbv; tr_ifs; reflexivity ].\n");
+    ltac.push_str("Ltac tr_solve := intros; first [ reflexivity | tr_destruct; reflexivity | timeout 20 (tr_destruct; cbv; tr_ifs; reflexivity) ].\n");
     let prelude = format!(
         "From Coq Require Import ZArith QArith List Bool Floats.\nFrom KV Require Import {}.\nFrom KVGen Require Gen.\nImport ListNotations.\n{}",
         imports, ltac
@@ -232,6 +246,22 @@ fn main() {
         let o = &outs[i];
         let kind = if f.identity_ctor || f.identity_coeffs { "identity_ctor" } else if f.model.is_some() { "tied" } else { "helper" };
         let names: Vec<String> = o.binders.iter().map(|b| b.0.clone()).collect();
+        // `$i` in a model_app template is the i-th Rust parameter: skip the ambient binders
+        let n_amb = {
+            let mut amb: Vec<(String, String)> = Vec::new();
+            for p in &f.params {
+                if let Ty::Named(n) = p.ty.strip_into() {
+                    if let Some(ti) = ctx.types.get(n) {
+                        for b in &ti.ambient_binders {
+                            if !amb.contains(b) {
+                                amb.push(b.clone());
+                            }
+                        }
+                    }
+                }
+            }
+            if o.binders.len() >= amb.len() { amb.len() } else { 0 }
+        };
         let bs: String = o.binders.iter().map(|(n, ty)| format!(" ({} : {})", n, ty)).collect();
         let lemma_for = |m: &String, app: &Option<String>| -> Value {
             if o.def.is_none() {
@@ -240,7 +270,7 @@ fn main() {
             let rhs = match app {
                 Some(tpl) => {
                     let mut s = tpl.clone();
-                    for (j, n) in names.iter().enumerate().rev() {
+                    for (j, n) in names.iter().skip(n_amb).enumerate().rev() {
                         s = s.replace(&format!("${}", j), n);
                     }
                     s
@@ -254,16 +284,23 @@ fn main() {
                 }
             };
             let lhs = if names.is_empty() { format!("Gen.{}", f.gen) } else { format!("Gen.{} {}", f.gen, names.join(" ")) };
+            if let Some(st) = &f.stmt {
+                let mut s = st.replace("$G", &format!("({})", lhs));
+                for (j, n) in names.iter().skip(n_amb).enumerate().rev() {
+                    s = s.replace(&format!("${}", j), n);
+                }
+                return json!(format!("forall (T : Type) (S : Scalar T){}, {}", bs, s));
+            }
             json!(format!("forall (T : Type) (S : Scalar T){}, {} = {}", bs, lhs, rhs))
         };
         let lines = def_lines.iter().find(|d| d.0 == i).map(|d| json!([d.1, d.2])).unwrap_or(Value::Null);
         // one entry per (function, model constant) tie; a helper or identity constructor gets a single entry
-        let mut ties: Vec<(String, Option<String>, Option<String>, Vec<String>)> = Vec::new();
-        ties.push((f.gen.clone(), f.model.clone(), f.model_app.clone(), f.props.clone()));
-        for (k, (m, app, props)) in f.also.iter().enumerate() {
-            ties.push((format!("{}__{}", f.gen, k + 2), Some(m.clone()), app.clone(), props.clone()));
+        let mut ties: Vec<(String, Option<String>, Option<String>, Vec<String>, Option<String>)> = Vec::new();
+        ties.push((f.gen.clone(), f.model.clone(), f.model_app.clone(), f.props.clone(), f.bridge.clone()));
+        for (k, (m, app, props, br)) in f.also.iter().enumerate() {
+            ties.push((format!("{}__{}", f.gen, k + 2), Some(m.clone()), app.clone(), props.clone(), br.clone()));
         }
-        for (id, model, app, props) in ties {
+        for (id, model, app, props, bridge) in ties {
             let lemma = match &model {
                 Some(m) => lemma_for(m, &app),
                 None => Value::Null,
@@ -281,6 +318,7 @@ fn main() {
                 "detail": o.error.clone().unwrap_or_default(),
                 "lemma": lemma,
                 "gen_lines": lines,
+                "bridge": bridge,
                 "deps": o.deps.iter().map(|&d| ctx.fns[d].gen.clone()).collect::<Vec<_>>(),
             }));
         }
